@@ -85,6 +85,7 @@ class Run:
         self.obs = []
         self.dropped = []
         self.objs = {}
+        self.lazy = {}
         self.classes = []
         self.reactions = {}
         self.calls = {}
@@ -161,11 +162,11 @@ class Run:
                 cls = event_handler(*names, **kw)(cls)
                 self.classes.append(cls)
             else:
+                # objects are created at their first use: an object allocated after another one died
+                # may well get the address (id) of the dead one
                 _, oid, cid, h = d
-                o = self.classes[cid]()
-                o._oid = oid
-                o._h = int(h) if h is not None else id(o) >> 4
-                self.objs[oid] = o
+                self.objs[oid] = None
+                self.lazy[oid] = (cid, h)
         for cid, cls in enumerate(self.classes):
             ev = getattr(cls, '__events__', None)
             if ev is None:
@@ -220,6 +221,13 @@ class Run:
 
     prefix = ''
 
+    def materialise(self, oid):
+        cid, h = self.lazy.pop(oid)
+        o = self.classes[cid]()
+        o._oid = oid
+        o._h = int(h) if h is not None else id(o) >> 4
+        self.objs[oid] = o
+
     def parse_extra(self, t):
         return False
 
@@ -235,6 +243,8 @@ class Run:
             if oid not in self.objs:
                 self.obs.append(f'gone {oid}')
                 return
+            if self.objs[oid] is None:
+                self.materialise(oid)
             if kind == 'add':
                 self.disp.add_handler(self.objs[oid])
             elif kind == 'remove':
@@ -242,6 +252,10 @@ class Run:
             elif kind == 'drop':
                 self.dropped.append((oid, weakref.ref(self.objs[oid])))
                 del self.objs[oid]
+                # "a new one takes its place": the next object not yet in use is created right now, which
+                # in CPython usually hands it the address the dropped one just freed
+                if self.lazy:
+                    self.materialise(min(self.lazy))
             else:
                 self.obs.append(f'ish {oid} {int(self.disp.is_handler(self.objs[oid]))}')
         elif kind == 'dispatch':
